@@ -109,6 +109,16 @@ partial def parseExpr (l : Lib) (j : Json) : Option (Expr GR DV) :=
             | Json.null => some Expr.missing
             | e => parseExpr l e).map fun ents => Expr.block d sd ents
       | _, _, _ => none
+  | some "sumN" =>
+      match (field? j "args").bind getArr?, (field? j "neg").bind getArr? with
+      | some es, some ns =>
+          (es.mapM (parseExpr l)).map fun args =>
+            Expr.sumN args (ns.map fun b => match b with | Json.bool true => true | _ => false)
+      | _, _ => none
+  | some "chainN" =>
+      match (field? j "args").bind getArr? with
+      | some es => (es.mapM (parseExpr l)).map fun args => Expr.chainN args
+      | _ => none
   | some "add" => do some (Expr.add (← sub "a") (← sub "b"))
   | some "sub" => do some (Expr.sub (← sub "a") (← sub "b"))
   | some "matmul" => do some (Expr.matmul (← sub "a") (← sub "b"))
